@@ -219,3 +219,32 @@ def scratch_dir(prop):
 
 def rm_scratch(d):
     shutil.rmtree(d, ignore_errors=True)
+
+
+def probe_first(ctx, cases, work, failed, n_probe=600, timeout=240):
+    """Fail-fast probe shared by the harnesses: every k-th case (about `n_probe`) in a fresh pool first.  If `failed(result)` holds for
+    one of them, the exploration is cut down to the probe, so a tree that breaks the property broadly (or makes every run slower
+    than the one before, e.g. through state accumulating across runs) is reported with a failing input within seconds.  Returns
+    the list of cases to explore."""
+    import multiprocessing as mp
+    if len(cases) <= 2 * n_probe or getattr(ctx, 'search', False):
+        return cases
+    stride = max(1, len(cases) // n_probe)
+    probe = cases[::stride]
+    pool = mp.Pool(ctx.workers)
+    try:
+        res = pool.map_async(work, probe, chunksize=4).get(timeout=timeout)
+    except mp.TimeoutError:
+        pool.terminate()
+        msg = (f'a probe of {len(probe)} cases did not complete within {timeout} s (it takes seconds on the unchanged tree): '
+               'the code under test blocks or no longer terminates')
+        if getattr(ctx, 'give_up', None) is not None:
+            ctx.give_up(msg)
+        ctx.note(msg)
+        return cases
+    finally:
+        pool.terminate()
+    if any(failed(r) for r in res):
+        ctx.note(f'probe of {len(probe)} cases already fails: exploration cut down to the probe')
+        return probe
+    return cases
